@@ -7,9 +7,6 @@ NID = "Inst('saml2_tophat.saml:NameID')"
 ENTRY = 'Tuple(Union(Int, Str, NoneT), Dict(Str, Any))'
 declare_class(CA, fields={'_db': 'Dict(Str, Dict(Str, %s))' % ENTRY, '_sync': 'Any'})
 ghost('code_of', ['Val'], 'Val')        # the storage key of a NameID (ident.code); injective on normalised NameIDs (C18, L18)
-contract('saml2_tophat.ident:code', pure=True, trusted=True, params=['item'], returns='Str',
-         ensures=['result == code_of(item)'],
-         note='ASSUMED here; the encoding itself is the subject of C18')
 contract('saml2_tophat.ident:decode', pure=True, trusted=True, params=['txt'], returns=NID, ensures=['fresh(result)'],
          note='ASSUMED here; the encoding itself is the subject of C18')
 
